@@ -7,5 +7,5 @@ KindsDef == {K("char", 1, 1), K("uchar", 1, 1), K("bool", 1, 1), K("short", 2, 2
              K("int", 4, 4), K("uint", 4, 4), K("long", 8, 8), K("ulong", 8, 8), K("llong", 8, 8),
              K("float", 4, 4), K("double", 8, 8), K("enum", 4, 4), K("ptr", 8, 8), K("fnptr", 8, 8),
              K("carr3", 3, 1), K("iarr2", 8, 4), K("larr2", 16, 8), K("parr2", 16, 8), K("carr2x2", 4, 1), K("iarr2x2", 16, 4), K("larr2x2", 32, 8),
-             K("inner", 16, 8)}
+             K("inner", 16, 8), K("innerp", 24, 8)}
 =============================================================================
